@@ -399,6 +399,24 @@ Definition arg (n : nat) (argv : list str) : option str := nth_error argv n.
 Definition cmdchar (argv : list str) : byte := match argv with (c :: _) :: _ => c | _ => x00 end.
 Definition decnum (s : str) : N := fold_left (fun a c => let n := Byte.to_N c in if (48 <=? n) && (n <=? 57) then a * 10 + (n - 48) else a) s 0.
 
+(* strtol(s, NULL, 10) as a long: optional white space, optional sign, digits, saturating; 0 when no digit follows *)
+Definition isdigitb (b : byte) : bool := let n := Byte.to_N b in (48 <=? n) && (n <=? 57).
+Definition LONG_MAXZ : Z := 9223372036854775807.
+Fixpoint digitsZ (s : str) (acc : Z) : Z * str :=
+  match s with c :: r => if isdigitb c then digitsZ r (Z.min (acc * 10 + Z.of_N (Byte.to_N c - 48)) (LONG_MAXZ + 1))%Z else (acc, s) | [] => (acc, []) end.
+Definition strtol_long (line : str) : Z * str :=
+  let s := skipws line in
+  let '(neg, s1) := match s with c :: r => if beq c x2d then (true, r) else if beq c x2b then (false, r) else (false, s) | [] => (false, s) end in
+  match s1 with
+  | c :: _ => if isdigitb c then
+                let '(v, rest) := digitsZ s1 0%Z in
+                ((if neg then Z.max (- v) (- LONG_MAXZ - 1) else Z.min v LONG_MAXZ)%Z, rest)
+              else (0%Z, line)
+  | [] => (0%Z, line)
+  end.
+(* req->remote_port = strtol(argv[2], NULL, 10), an unsigned short *)
+Definition port_of (p : str) : N := Z.to_N (fst (strtol_long p) mod 65536)%Z.
+
 (* the announced address: irc_pton(argv[1]) then irc_ntop *)
 Definition announce_addr (a : str) : list N * str :=
   match pton a false false with
@@ -415,7 +433,7 @@ Definition step (c : cfg) (s : st) (id : Z) (argv : list str) : st * list out :=
     | Some a, Some p, Some _, Some _ =>
         let sn := (next s + 1) mod 4294967296 in
         let '(g, txt) := announce_addr a in
-        ({| reqs := put (fresh id sn txt g (decnum p) (tmo s)) (reqs s); next := sn; tb := tb s; tmo := tmo s |}, [])
+        ({| reqs := put (fresh id sn txt g (port_of p) (tmo s)) (reqs s); next := sn; tb := tb s; tmo := tmo s |}, [])
     | _, _, _, _ => (s, [])
     end
   else if beq ch x58 || beq ch x78 (* X x *) then
